@@ -102,7 +102,7 @@ theorem eraseDups_one : (["elements"] : List String).eraseDups = ["elements"] :=
 
 /-- an element with the id attribute only -/
 theorem parse_id (K : Consts) (ts : TypeSystem) (tsIdx : Nat) (hp : Heap) (ty : String) (t : TypeRec) (x : Int)
-    (ht : getType ts ty = .ok t) (hc : ctorFields t = ["elements"]) :
+    (ht : getTypeExact ts ty = .ok t) (hc : ctorFields t = ["elements"]) :
     parseFsElem K ts tsIdx hp { ty := ty, attrs := [(ID, showInt x)] } =
       .ok (hp ++ [{ ty := t.name, ts := tsIdx, xid := some x, slots := [("elements", .none)] }], x, hp.length) := by
   rw [parseFsElem_flat K ts tsIdx hp _ t x [] ht rfl rfl (by intro p hp; cases hp) (by intro s hs; cases hs)]
@@ -112,7 +112,7 @@ theorem parse_id (K : Consts) (ts : TypeSystem) (tsIdx : Nat) (hp : Heap) (ty : 
 
 /-- an element with the id attribute and the attribute `elements` -/
 theorem parse_attr (K : Consts) (ts : TypeSystem) (tsIdx : Nat) (hp : Heap) (ty : String) (t : TypeRec) (x : Int)
-    (s : String) (ht : getType ts ty = .ok t) (hc : ctorFields t = ["elements"]) :
+    (s : String) (ht : getTypeExact ts ty = .ok t) (hc : ctorFields t = ["elements"]) :
     parseFsElem K ts tsIdx hp { ty := ty, attrs := [(ID, showInt x), ("elements", s)] } =
       .ok (hp ++ [{ ty := t.name, ts := tsIdx, xid := some x, slots := [("elements", .str s)] }], x, hp.length) := by
   rw [parseFsElem_flat K ts tsIdx hp _ t x [("elements", s)] ht rfl rfl]
@@ -152,7 +152,7 @@ theorem groupKids_elems (e : Option String) (texts : List (Option String)) :
 /-- an element of a primitive array type with the id attribute and child elements `elements` -/
 theorem parse_kids (K : Consts) (ts : TypeSystem) (tsIdx : Nat) (hp : Heap) (ty : String) (t : TypeRec) (x : Int)
     (e0 : Option String) (rest : List (Option String))
-    (ht : getType ts ty = .ok t) (hc : ctorFields t = ["elements"]) (hpa : isPrimitiveArray K ty = true) :
+    (ht : getTypeExact ts ty = .ok t) (hc : ctorFields t = ["elements"]) (hpa : isPrimitiveArray K ty = true) :
     parseFsElem K ts tsIdx hp
         { ty := ty, attrs := [(ID, showInt x)], kids := (e0 :: rest).map (fun e => ("elements", e)) } =
       .ok (hp ++ [{ ty := t.name, ts := tsIdx, xid := some x, slots := [("elements", .strs (e0 :: rest))] }], x,
@@ -606,7 +606,7 @@ theorem arr_elem1 (K : Consts) (ts : TypeSystem) (cass : List Cas) (H : Heap) (t
   intro a x hP hid
   obtain ⟨o, t, f, ev, hH, hfind, htn, _, hfeat, hfn, _, _, hs, _, hcase⟩ := hP
   have hx : o.xid = some x := by unfold xidOf at hid; rw [hH] at hid; exact hid
-  have hgt : getType ts o.ty = .ok t := rtp_getType hfind
+  have hgt : getTypeExact ts o.ty = .ok t := getTypeExact_of_find hfind
   have hc := ctor_elems hfeat hfn
   rcases hcase with ⟨hty, hpa, hsa, hev⟩ | ⟨hty, hpa, hev⟩ | ⟨hty, hpa, hsa, hev⟩
   · -- FSArray
